@@ -302,6 +302,49 @@ def r08_4(rep, M, rid):
                       "permutation (get_wyckoff_letters_original)", M.where(f2))
 
 
+def r08_8(rep, M, rid):
+    """setting typestate: the tabulated expressions are in the standard setting, so the system whose positions are matched against
+    them must be in the standard setting too. In the 2D branch get_conventional_system may swap two basis vectors."""
+    GEO = "matid.geometry.geometry"
+    gcs = SA + ".get_conventional_system"
+    swaps = M.calls_to(gcs, GEO + ".swap_basis")
+    pub = SA + ".get_wyckoff_sets_conventional"
+    fn = M.func(pub)
+    fl = Flow(fn)
+    calls = M.calls_to(pub, FQ)
+    if not calls:
+        raise AnalysisError("get_wyckoff_sets_conventional: call of _get_wyckoff_sets not found")
+    if not swaps:
+        rep.ok(rid, "get_conventional_system never changes the axis order of the standardised cell")
+        return
+    # the swap must be recorded and undone (on a copy) before _get_wyckoff_sets sees the system
+    rec = [s2 for s2 in ast.walk(M.func(gcs)) if isinstance(s2, ast.Assign) and isinstance(s2.targets[0], ast.Attribute)
+           and isinstance(s2.value, ast.Tuple) and {norm(x) for x in s2.value.elts} == {norm(a) for a in swaps[0].args[1:3]}]
+    undo = M.calls_to(pub, GEO + ".swap_basis")
+    b = M.bind_args(FQ, calls[0])
+    sysarg = b.get("system")
+    ok = False
+    why = "the swapped system is handed to _get_wyckoff_sets as it is"
+    if rec and undo and isinstance(sysarg, ast.Name):
+        attr = norm(rec[0].targets[0])
+        at = fl.node_of(undo[0])
+        conds = fl.cfg.branch_conditions(at)
+        guarded = any(pol is True and isinstance(t, ast.If) and attr in norm(t.test) for t, pol in conds)
+        same_obj = norm(undo[0].args[0]) == sysarg.id
+        uses_rec = any(attr in norm(a) for a in undo[0].args[1:]) or any(attr in norm(k.value) for k in undo[0].keywords)
+        copied = any(isinstance(s2, ast.Assign) and norm(s2.targets[0]) == sysarg.id and norm(s2.value) == f"{sysarg.id}.copy()" and
+                     fl.cfg.reaches(fl.node_of(s2), at) for s2 in ast.walk(fn))
+        reaches = fl.cfg.reaches(at, fl.node_of(calls[0]))
+        ok = guarded and same_obj and uses_rec and copied and reaches
+        why = f"guarded by the recorded swap: {guarded}; same object: {same_obj}; uses the recorded axes: {uses_rec}; on a copy: {copied}; before the matching: {reaches}"
+    if ok:
+        rep.ok(rid, "the 2D axis swap of the conventional system is recorded and undone on a copy before positions are matched with the standard-setting expressions")
+    else:
+        rep.violation(rid, "get_wyckoff_sets_conventional: setting of the matched system", "get_conventional_system can exchange two basis vectors of a 2D system "
+                      "(non-periodic axis last), but the Wyckoff expressions are in the standard setting: " + why + ". With the axes permuted the generated "
+                      "positions never match the atoms and the call fails with ValueError (e.g. a phosphorene-like Pmna layer)", M.where(pub, calls[0]))
+
+
 def run(rep, ctx):
     M, T = ctx.model, ctx.tables
     rep.exhaustive = True
@@ -333,6 +376,9 @@ def run(rep, ctx):
     with rep.guard("R08.7"):
         from . import shared as _sh
         _sh.normal_form(rep, ctx.model, "R08.7")
+    rep.rule("R08.8", "positions are matched against the tabulated expressions in the setting the expressions are written in (standard setting)")
+    with rep.guard("R08.8"):
+        r08_8(rep, M, "R08.8")
     rep.floor("R08.1", 26000)
     rep.floor("R08.2", 1500)
     rep.floor("R08.3", 1700)
